@@ -445,6 +445,13 @@ func fileSeek(L *LState) int {
 	} else if top == 2 {
 		L.Push(LNumber(0))
 	}
+	// an explicit nil selects the default like an absent argument (luaL_checkoption with a default, luaL_optlong)
+	if L.Get(2) == LNil {
+		L.Replace(2, LString("cur"))
+	}
+	if L.Get(3) == LNil {
+		L.Replace(3, LNumber(0))
+	}
 
 	var pos int64
 	var err error
